@@ -707,8 +707,9 @@ def rule_box_copied(ctx: Ctx, rid: str):
     is its own, nobody holding the original arrays can move it afterwards."""
     e = evo_of(ctx)
     init = e.cls.methods['__init__']
-    # constructor and SetBounds store (copies of) the parameters under the same names
-    ex2 = ctx.explorer()
+    # constructor and SetBounds store (copies of) the parameters under the same names; a constructor that delegates
+    # to SetBounds (or to a helper of the class) is looked through
+    ex2 = ctx.explorer(inline=lambda f, st: f.cls is e.cls and f.name != '__init__')
     for fn in (init, e.cls.methods.get('SetBounds')):
         if fn is None:
             continue
